@@ -105,6 +105,10 @@ inline bool flush_F(Rng& r, uint64_t idx)
   w.tag = "fF" + std::to_string(idx);
   w.random_backend_options(r);
   if (r.chance(2, 3)) w.bo.log_timestamp_ordering_grace_period = std::chrono::microseconds{r.pick({1, 50, 1000})};
+  // some loggers stamp with a user clock that runs a day ahead: flush_log() through them (and after statements
+  // through them) must still return with the caller's own statements written. The cross-thread clause is only
+  // demanded between system-clock loggers (the property limits it to system / TSC clocks).
+  if (r.chance(1, 4)) w.user_clock_mask = static_cast<uint32_t>(r.range(1, 15));
   make_topology(w, r, 3, 4);
   // a real file sink on an extra logger
   std::string const file_path = g_dir + "/" + w.tag + ".log";
@@ -121,7 +125,10 @@ inline bool flush_F(Rng& r, uint64_t idx)
       fc.set_minimum_fsync_interval(std::chrono::milliseconds{r.pick({0, 1, 5000})});
     }
     if (r.chance(1, 3)) fc.set_write_buffer_size(r.pick<uint64_t>({4096, 1u << 20}));
-    auto fs_sink = Fe::create_or_get_sink<quill::FileSink>(file_path, fc);
+    // ... and with a before_write callback installed (it returns the statement unchanged)
+    quill::FileEventNotifier fen;
+    if (r.chance(1, 3)) fen.before_write = [](std::string_view m) { return std::string{m}; };
+    auto fs_sink = Fe::create_or_get_sink<quill::FileSink>(file_path, fc, fen);
     LoggerDef d;
     d.name = w.tag + "_zfile"; // sorts after the other loggers: its sink is flushed after theirs
     d.lg = Fe::create_or_get_logger(d.name, fs_sink, quill::PatternFormatterOptions{"%(message)"}, quill::ClockSourceType::System);
@@ -129,7 +136,9 @@ inline bool flush_F(Rng& r, uint64_t idx)
     file_logger = static_cast<int>(w.loggers.size());
     w.loggers.push_back(d); // no recording sinks
   }
-  bool const ordering = w.bo.log_timestamp_ordering_grace_period.count() != 0;
+  // (a thread's statement queued behind one of its own future-stamped user-clock statements waits for that one, so in
+  // scenarios with user-clock loggers only the caller's own statements are demanded)
+  bool const ordering = w.bo.log_timestamp_ordering_grace_period.count() != 0 && w.user_clock_mask == 0;
   int faulty_flush_sink = -1;
   if (r.chance(1, 3))
   {
@@ -176,14 +185,14 @@ inline bool flush_F(Rng& r, uint64_t idx)
                            size_t own_n = logs[t]->n.load(std::memory_order_relaxed);
                            for (size_t i = 0; i < own_n; ++i) must.push_back(&logs[t]->v[i]);
                            checked_own.fetch_add(own_n);
-                           if (ordering)
+                           if (ordering && !w.loggers[li].user_clock)
                            {
                              for (uint32_t o = 0; o < nt; ++o)
                              {
                                if (o == t) continue;
                                size_t on = logs[o]->n.load(std::memory_order_acquire);
                                for (size_t i = 0; i < on; ++i)
-                                 if (logs[o]->v[i].g_ret < g0)
+                                 if (logs[o]->v[i].g_ret < g0 && !w.loggers[logs[o]->v[i].logger].user_clock)
                                  {
                                    must.push_back(&logs[o]->v[i]);
                                    checked_others.fetch_add(1);
